@@ -65,6 +65,10 @@ package mdiff
 //@   at after "cur.Edits = append(cur.Edits, e)": ghost cur.cl = upd(cur.cl, len(cur.Edits), cur.LEnd)
 //@   at after "cur.Edits = append(cur.Edits, e)": ghost cur.cr = upd(cur.cr, len(cur.Edits), cur.REnd)
 //@   loop 1: invariant [C13] script: len(es) > 0 ==> scriptOK(es, lhs, rhs, slice.equal, lp, rp) && lp[len(es)] == len(lhs) && rp[len(es)] == len(rhs)
+//@   at before "if cur.LEnd == cur.LStart && cur.REnd == cur.RStart": assert [C13] len(es) > 0 ==> lcur == len(lhs) + 1 && rcur == len(rhs) + 1
+//@   at before "if cur.LEnd == cur.LStart && cur.REnd == cur.RStart": assert [C13] len(es) > 0 ==> sameRun(lhs, rhs, cur.LEnd - 1, cur.REnd - 1, len(lhs) + 1 - cur.LEnd) && len(lhs) + 1 - cur.LEnd == len(rhs) + 1 - cur.REnd
+//@   at after "out = out[:len(out)-1]": assert [C13] len(out) > 0 && len(es) > 0 ==> out[len(out) - 1].LEnd <= cur.LStart && cur.LStart - out[len(out) - 1].LEnd == cur.RStart - out[len(out) - 1].REnd && sameRun(lhs, rhs, out[len(out) - 1].LEnd - 1, out[len(out) - 1].REnd - 1, cur.LStart - out[len(out) - 1].LEnd)
+//@   at after "out = out[:len(out)-1]": assert [C13] len(out) > 0 && len(es) > 0 ==> len(lhs) + 1 - out[len(out) - 1].LEnd == len(rhs) + 1 - out[len(out) - 1].REnd && sameRun(lhs, rhs, out[len(out) - 1].LEnd - 1, out[len(out) - 1].REnd - 1, len(lhs) + 1 - out[len(out) - 1].LEnd)
 //@   loop 1: invariant [C13] run: lcur - cur.LEnd == rcur - cur.REnd && sameRun(lhs, rhs, cur.LEnd - 1, cur.REnd - 1, lcur - cur.LEnd)
 //@   loop 1: invariant [C13] head: out[0].LStart == out[0].RStart && sameRun(lhs, rhs, 0, 0, out[0].LStart - 1)
 //@   loop 1: invariant [C13] gaps: forall a int, b int :: {out[a], out[b]} 0 <= a && b == a + 1 && b < len(out) ==> out[b].LStart - out[a].LEnd == out[b].RStart - out[a].REnd && sameRun(lhs, rhs, out[a].LEnd - 1, out[a].REnd - 1, out[b].LStart - out[a].LEnd)
